@@ -17,3 +17,19 @@ Example C19_refuted_D3 :
   exists n, let s := iter n 8 (new_sensor (Some 3) 1) in
             length (hd [] (sn_data s)) = 3%nat /\ length (sn_time s) = 10%nat.
 Proof. exists 10%nat. vm_compute. split; reflexivity. Qed.
+
+(** D11: after the first repair the time series was trimmed only when sense() had returned, so the on-sense callbacks ran in a state
+    ([notified_v1]) whose time series was one entry longer than the probe series.  Replayed on the implementation
+    (corpus/sensor/D11.json), repaired by fix: 92eafab (trim before sense()). *)
+Definition notified_v1 (nw : Z) (vals : list Z) (s : sensor) : sensor := sn_collect vals (sn_add_time nw s).
+Definition periodic_sense_v1 (nw : Z) (vals : list Z) (s : sensor) : sensor := sn_trim_time (notified_v1 nw vals s).
+
+Fixpoint iter1 (n : nat) (t : Z) (s : sensor) : sensor :=
+  match n with O => s | S n' => iter1 n' (t + 8) (periodic_sense_v1 t [t] s) end.
+
+Example C19_refuted_D11 :
+  exists n, let s := iter1 n 8 (new_sensor (Some 3) 1) in
+            let seen := notified_v1 (8 + 8 * Z.of_nat n) [0] s in
+            length (hd [] (sn_data s)) = length (sn_time s) /\
+            length (hd [] (sn_data seen)) = 3%nat /\ length (sn_time seen) = 4%nat.
+Proof. exists 3%nat. vm_compute. repeat split; reflexivity. Qed.
